@@ -298,6 +298,9 @@ func validateDefinition(schema *Schema, def *Definition) *gqlerror.Error {
 					return gqlerror.ErrorPosf(def.Position, "%s %s: non-enum value %s.", def.Kind, def.Name, value.Name)
 				}
 			}
+			if err := validateName(value.Position, value.Name); err != nil {
+				return err
+			}
 			if err := validateDirectives(schema, value.Directives, LocationEnumValue, nil); err != nil {
 				return err
 			}
